@@ -86,6 +86,15 @@ def run(ctx):
             ev = events[:]
             rnd.shuffle(ev)
             phases.append({"streams": k, "mode": "free", "assign": [ev[i::k] for i in range(k)]})
+        # sparse assignments: some stream ids never get an event (and never construct a Stepper), so the
+        # lazily created per-stream states have gaps; totals over streams must not depend on which ids are idle
+        for k, busy in ([(4, [1, 3]), (4, [0, 3])] if q else [(4, [1, 3]), (4, [0, 3]), (4, [2]), (8, [4, 5, 6, 7]), (16, [3, 15])]):
+            ev = events[:]
+            rnd.shuffle(ev)
+            asg = [[] for _ in range(k)]
+            for j, b in enumerate(busy):
+                asg[b] = ev[j::len(busy)]
+            phases.append({"streams": k, "mode": "free", "assign": asg})
         scripts.append({"seed": ctx.seed % 100000, "prims": 2, "emax": 20.0, "slots": [4, 1, 8, 2][len(scripts) % 4],
                         "diag": diag, "status_checker": sc, "scale": 5, "phases": phases})
     vlib.build(["vstreams"])
